@@ -7,7 +7,7 @@ EXTENDS DcsContract, SequencesExt, Json, TLC
 Traces == ndJsonDeserialize("rows.ndjson")
 VARIABLES tr, l, tree, bad
 vars == <<tr, l, tree, bad>>
-ParentMap == ("a" :> "root") @@ ("a/b" :> "a") @@ ("c" :> "root")
+ParentMap == ("a" :> "root") @@ ("a/b" :> "a") @@ ("c" :> "root") @@ ("d" :> "root") @@ ("d/e" :> "d") @@ ("d/e/f" :> "d/e")
 EmptyTree == [k \in Key |-> Absent]
 Ev(t, n) == Traces[t].events[n]
 Init == tr \in 1..Len(Traces) /\ l = 1 /\ tree = EmptyTree /\ bad = "none"
